@@ -53,6 +53,26 @@ pub fn child_random(ctx: &Ctx, name: &str, quick_total: u32, factor: u32, tape_l
 	0
 }
 
+/// Child side: run the deterministic enumeration `0..n` (the tape of case i is its index).
+pub fn child_enum(n: usize, check: &CheckFn) -> i32 {
+	let mut stats = Stats::default();
+	for i in 0..n {
+		let tape = (i as u32).to_le_bytes();
+		emit(&format!("B 0 {}", hex_full(&tape)));
+		match run_tape(check, &tape, &mut stats) {
+			Ok(Ok(())) => {},
+			Ok(Err(v)) => emit(&format!("F {}", json!({"tape": hex_full(&tape), "sig": v.sig, "detail": v.detail}))),
+			Err(p) => {
+				emit(&format!("X {}", json!(p)));
+				break;
+			},
+		}
+	}
+	emit(&format!("S {}", stats.to_json()));
+	emit("D");
+	0
+}
+
 /// Child side: run exactly one tape.
 pub fn child_tape(check: &CheckFn, tape: &[u8]) -> i32 {
 	let mut st = Stats::default();
@@ -78,7 +98,11 @@ pub enum TapeRun {
 
 /// Parent side: run one tape alone in a fresh child.
 pub fn run_tape_in_child(ctx: &Ctx, name: &str, tape: &[u8], extra_env: &[(&str, String)]) -> TapeRun {
-	let mut cmd = Command::new(self_exe());
+	run_tape_in_child_exe(ctx, name, tape, extra_env, None)
+}
+
+pub fn run_tape_in_child_exe(ctx: &Ctx, name: &str, tape: &[u8], extra_env: &[(&str, String)], exe: Option<&str>) -> TapeRun {
+	let mut cmd = Command::new(exe.map(std::path::PathBuf::from).unwrap_or_else(self_exe));
 	cmd.args(["--worker-tape", ctx.property, ctx.tier_name(), name, &hex_full(tape)])
 		.stdout(Stdio::piped())
 		.stderr(Stdio::piped());
@@ -111,8 +135,19 @@ pub fn run_tape_in_child(ctx: &Ctx, name: &str, tape: &[u8], extra_env: &[(&str,
 /// Parent side: run a named tape check in a child process; recover crashes.
 /// `crash_sig` is the signature given to a reproducible crash.
 pub fn run_in_worker(ctx: &Ctx, name: &str, crash_sig: &str, report: &mut Report) {
-	let mut child = match Command::new(self_exe())
-		.args(["--worker-random", ctx.property, ctx.tier_name(), name])
+	run_worker_mode(ctx, "--worker-random", name, crash_sig, report, None)
+}
+
+/// As `run_in_worker`, for a deterministic enumeration; `exe` selects another build of the
+/// harness (e.g. the AddressSanitizer one).
+pub fn run_enum_in_worker(ctx: &Ctx, name: &str, crash_sig: &str, report: &mut Report, exe: Option<&str>) {
+	run_worker_mode(ctx, "--worker-enum", name, crash_sig, report, exe)
+}
+
+fn run_worker_mode(ctx: &Ctx, mode: &str, name: &str, crash_sig: &str, report: &mut Report, exe: Option<&str>) {
+	let mut child = match Command::new(exe.map(std::path::PathBuf::from).unwrap_or_else(self_exe))
+		.args([mode, ctx.property, ctx.tier_name(), name])
+		.env("ASAN_OPTIONS", "detect_leaks=1:abort_on_error=1:halt_on_error=1")
 		.stdout(Stdio::piped())
 		.stderr(Stdio::piped())
 		.spawn()
@@ -170,7 +205,7 @@ pub fn run_in_worker(ctx: &Ctx, name: &str, crash_sig: &str, report: &mut Report
 	let mut reproduced = false;
 	for (_tid, tape_hex) in last {
 		let tape = unhex(&tape_hex);
-		match run_tape_in_child(ctx, name, &tape, &[]) {
+		match run_tape_in_child_exe(ctx, name, &tape, &[], exe) {
 			TapeRun::Died(how) => {
 				reproduced = true;
 				if ctx.known.iter().any(|k| k.signature == crash_sig) {
